@@ -558,6 +558,80 @@ class Body:
             self.text = self.text[:a] + rep + self.text[b:]
             self.toks = lex(self.text)
 
+    # R9: I.filter(|p| E).count()  ->  { let mut n__c: usize = 0; for p__it in I { let p = &p__it; if E { n__c += 1; } } n__c }
+    # (Iterator::filter hands the closure a reference to each item; count() adds one per item kept - this is their definition)
+    def r9_filter_count(self):
+        guard = 0
+        while True:
+            guard += 1
+            if guard > 50:
+                raise ExtractError('R9: rewrite did not terminate')
+            code = self.code()
+            T = lambda ci: self.toks[code[ci]]
+            n = len(code)
+            hit = None
+            for ci in range(1, n - 6):
+                t = T(ci)
+                if t[0] == 'ident' and t[1] == 'filter' and T(ci - 1)[1] == '.' and T(ci + 1)[1] == '(' and T(ci + 2)[1] == '|':
+                    close = self._close(code, ci + 1)
+                    if not (close + 4 < n + 1 and T(close + 1)[1] == '.' and T(close + 2)[1] == 'count' and T(close + 3)[1] == '(' and T(close + 4)[1] == ')'):
+                        continue
+                    k = ci + 3
+                    while k < close and T(k)[1] != '|':
+                        k += 1
+                    pat = self.text[T(ci + 3)[2]:T(k - 1)[3]]
+                    if not re.fullmatch(r'[A-Za-z_][A-Za-z0-9_]*', pat):
+                        raise ExtractError('R9: closure parameter is not a plain identifier at line %d' % self.line(t[2]))
+                    body_hi = close - 1
+                    if T(body_hi)[1] == ',':
+                        body_hi -= 1
+                    body_txt = self.text[T(k + 1)[2]:T(body_hi)[3]]
+                    for x in range(k + 1, body_hi + 1):
+                        if T(x)[1] in ('return', 'break', 'continue', '?'):
+                            raise ExtractError('R9: closure body with control flow at line %d' % self.line(t[2]))
+                    # receiver chain (the iterator expression)
+                    r = ci - 2
+                    start = None
+                    KW = ('return', 'let', 'if', 'match', 'in', 'else', 'while', 'for', 'mut', 'ref', 'move')
+                    while r >= 0:
+                        tt = T(r)
+                        if tt[0] == 'punct' and tt[1] in (')', ']'):
+                            depth = 0
+                            while r >= 0:
+                                if T(r)[0] == 'punct' and T(r)[1] in CLOSE:
+                                    depth += 1
+                                elif T(r)[0] == 'punct' and T(r)[1] in OPEN:
+                                    depth -= 1
+                                    if depth == 0:
+                                        break
+                                r -= 1
+                            start = r
+                            r -= 1
+                            continue
+                        if tt[0] in ('ident', 'num') and tt[1] not in KW:
+                            start = r
+                            r -= 1
+                            continue
+                        if tt[1] in ('.', '?'):
+                            r -= 1
+                            continue
+                        if tt[1] == ':' and r >= 1 and T(r - 1)[1] == ':':
+                            r -= 2
+                            continue
+                        break
+                    if start is None:
+                        raise ExtractError('R9: cannot find receiver at line %d' % self.line(t[2]))
+                    recv = self.text[T(start)[2]:T(ci - 2)[3]]
+                    rep = '{ let mut n__c: usize = 0; for %s__it in %s { let %s = &%s__it; if %s { n__c += 1; } } n__c }' % (pat, recv, pat, pat, body_txt)
+                    hit = (T(start)[2], T(close + 4)[3], rep, t)
+                    break
+            if not hit:
+                return
+            a, b, rep, t = hit
+            self.rewrites.append(dict(rule='R9 filter-count', line=self.line(t[2]), what='.filter(|p| E).count() -> counting for-loop'))
+            self.text = self.text[:a] + rep + self.text[b:]
+            self.toks = lex(self.text)
+
     # R1: `&x` / `&mut x`-free ref patterns: Some(&x) -> Some(x__r) + let x = *x__r;
     def r1_ref_patterns(self):
         code = self.code()
